@@ -225,7 +225,8 @@ TIME_STEPS = [60, 2 * 86400, 4 * 86400 + 50000]      # seconds between consecuti
 def run_case(shape, heads, tagged, matching, step_s=60) -> None:
     import ak.ghist as G
     messages = {c: ("BUG-1.(x) fix" if c in matching else "other BUG-10x") for c in shape}
-    tags = {c: f"build_{100 + c}_release_1_0_success" for c in tagged}
+    # the branch part of a build tag is free text (`build_<n>_<anything>_success`): spell it differently from commit to commit
+    tags = {c: f"build_{100 + c}_{['release_1_0', 'release_10.250', 'hotfix-2', 'master'][c % 4]}_success" for c in tagged}
     repo = StubRepo("main", shape, messages, tags, heads, step_s=step_s)
 
     class Coll(G.ReposCollection):
